@@ -294,6 +294,14 @@ impl<'a> ArchiveReader<'a> {
                 }
             }
 
+            // Validation: no symbolic or hard links. Archives created by nextest never contain
+            // them (the archiver follows symlinks), and unpacking a link followed by an entry
+            // that goes through it would write or change permissions outside of `target`.
+            let entry_type = entry.header().entry_type();
+            if entry_type.is_symlink() || entry_type.is_hard_link() {
+                return Err(ArchiveReadError::LinkEntry(path));
+            }
+
             // Validation: checksum matches.
             let mut header = entry.header().clone();
             let actual_cksum = header
